@@ -40,7 +40,8 @@ echo "$ID $PPID $S end" >> "$O/markers"
 type scene struct {
 	dir, inst, obs string
 	name, dagFile  string
-	sock           string
+	sock           string // address derived from the canonical location
+	sockA          string // address the first run was seen to bind (spelling members); "" = sock
 	bin, vtrace    string
 	env            []string
 	venv           *venv.Env
@@ -51,7 +52,8 @@ type scene struct {
 func newScene(dir, name, bin, vtrace string) (*scene, error) {
 	sc := &scene{dir: dir, inst: filepath.Join(dir, "inst"), obs: filepath.Join(dir, "obs"), name: name, bin: bin, vtrace: vtrace}
 	_ = os.RemoveAll(dir)
-	for _, d := range []string{"home", "dags", "data", "logs", "suspend"} {
+	// dags/sub: so that the spelling dags/sub/../x.yaml also resolves when nobody cleans it
+	for _, d := range []string{"home", "dags", "dags/sub", "data", "logs", "suspend"} {
 		if err := os.MkdirAll(filepath.Join(sc.inst, d), 0o755); err != nil {
 			return nil, err
 		}
@@ -105,7 +107,17 @@ func (sc *scene) close(ps ...*proc) {
 		}
 	}
 	_ = os.Remove(sc.sock)
+	for _, s := range sc.ownSockets() { // (a socket named after another spelling of the location)
+		_ = os.Remove(s)
+	}
 	_ = os.RemoveAll(sc.dir)
+}
+
+// ownSockets: every status socket in /tmp that carries this scene's (unique) DAG name.
+func (sc *scene) ownSockets() []string {
+	m, _ := filepath.Glob("/tmp/@blackdagger-" + sc.name + "-*.sock")
+	sort.Strings(m)
+	return m
 }
 
 func (sc *scene) touch(name string) { _ = os.WriteFile(filepath.Join(sc.obs, name), nil, 0o644) }
@@ -124,6 +136,10 @@ type proc struct {
 }
 
 func (sc *scene) start(outName string, argv ...string) (*proc, error) {
+	return sc.startIn(sc.inst, outName, argv...)
+}
+
+func (sc *scene) startIn(cwd, outName string, argv ...string) (*proc, error) {
 	p := &proc{done: make(chan struct{}), out: filepath.Join(sc.dir, outName)}
 	f, err := os.Create(p.out)
 	if err != nil {
@@ -131,7 +147,7 @@ func (sc *scene) start(outName string, argv ...string) (*proc, error) {
 	}
 	p.cmd = exec.Command(argv[0], argv[1:]...)
 	p.cmd.Env = sc.env
-	p.cmd.Dir = sc.inst
+	p.cmd.Dir = cwd
 	p.cmd.Stdout = f
 	p.cmd.Stderr = f
 	p.cmd.SysProcAttr = &syscall.SysProcAttr{Setpgid: true}
@@ -191,24 +207,53 @@ func (p *proc) output() string {
 	return string(b)
 }
 
-// startA launches the first run under the supervisor; k == 0: not paused.
-func (sc *scene) startA(k int) (*proc, error) {
+// startA launches the first run under the supervisor, naming the file by spelling s; k == 0: not paused.
+func (sc *scene) startA(k int, s spelling) (*proc, error) {
 	// --with-stat: stat-family calls on paths under the roots are pause points too (the first run
 	// performs no modifying call between `listen` and the launch of its first step)
-	args := []string{sc.vtrace, "--with-stat", "--root", sc.inst, "--root", sc.sock, "--log", filepath.Join(sc.dir, "traceA")}
+	args := []string{sc.vtrace, "--with-stat", "--root", sc.inst}
+	for _, a := range sc.candidateSocks(s) {
+		args = append(args, "--root", a)
+	}
+	args = append(args, "--log", filepath.Join(sc.dir, "traceA"))
 	if k > 0 {
 		args = append(args, "--pause-at", strconv.Itoa(k), "--ready", filepath.Join(sc.obs, "F"), "--resume", filepath.Join(sc.obs, "G"))
 	}
-	args = append(args, "--", sc.bin, "start", sc.dagFile)
-	return sc.start("outA", args...)
+	cwd, arg := sc.spell(s)
+	args = append(args, "--", sc.bin, "start", arg)
+	return sc.startIn(cwd, "outA", args...)
 }
 
-// startB launches the second run, untraced.
-func (sc *scene) startB(kind string) (*proc, error) {
+// startB launches the second run, untraced, naming the file by spelling s.
+func (sc *scene) startB(kind string, s spelling) (*proc, error) {
+	return sc.startSecond("outB", kind, s)
+}
+
+func (sc *scene) startSecond(out, kind string, s spelling) (*proc, error) {
+	cwd, arg := sc.spell(s)
 	if kind == "retry" {
-		return sc.start("outB", sc.bin, "retry", "--req="+sc.prevReq, sc.dagFile)
+		return sc.startIn(cwd, out, sc.bin, "retry", "--req="+sc.prevReq, arg)
 	}
-	return sc.start("outB", sc.bin, "start", sc.dagFile)
+	return sc.startIn(cwd, out, sc.bin, "start", arg)
+}
+
+// accepted: does the command (kind, spelling) run the DAG at all when no run is active?  Called at the
+// end of a member whose second command was refused with neither "already running" nor a probe timeout
+// (e.g. `retry x`: the CLI looks the earlier run up under /…/x, not /…/x.yaml, and finds none).
+func (sc *scene) accepted(kind string, s spelling) (bool, error) {
+	sc.touch("gate.all")
+	before := len(sc.markers())
+	p, err := sc.startSecond("outC", kind, s)
+	if err != nil {
+		return false, err
+	}
+	select {
+	case <-p.done:
+	case <-time.After(watchdog):
+		p.kill()
+		return false, fmt.Errorf("watchdog: the control command did not end within %s", watchdog)
+	}
+	return len(sc.markers()) > before, nil
 }
 
 // ------------------------------------------------------------------ markers ---
@@ -299,7 +344,11 @@ func (sc *scene) openGates(ms []marker, mine func(marker) bool, holdS1 bool) {
 // askStatus queries the status endpoint of the DAG file through the real socket client.
 // "running <request id> <pid>", "none" (nobody answers), "timeout", or "error: ...".
 func (sc *scene) askStatus() string {
-	ret, err := sock.NewClient(sc.sock).Request("GET", "/status")
+	addr := sc.sock
+	if sc.sockA != "" {
+		addr = sc.sockA
+	}
+	ret, err := sock.NewClient(addr).Request("GET", "/status")
 	if err != nil {
 		if strings.Contains(err.Error(), sock.ErrTimeout.Error()) || strings.Contains(err.Error(), "i/o timeout") {
 			return "timeout"
